@@ -1,6 +1,7 @@
 import SqlgrepModel.Lemmas.ExtractRow
 import SqlgrepModel.Lemmas.NoiseRun
 import SqlgrepModel.Lemmas.NoiseIncr
+import SqlgrepModel.Lemmas.FollowBridge
 /-
 C06 — lines that yield no row are invisible to every query.
 
@@ -9,8 +10,8 @@ cut, `Row::any_result`); the engines see a line as its raw text plus that extrac
 point tests `anyResult l.row` before touching any state (Model/Engine.lean `executeLine`: the three guards of
 `execute_select`, `execute_aggregate`, `execute_aggregate_update`; `loadJoin`: the joined file goes through a
 SELECT). `runBatch` (Model/Exec.lean) is `FileExecutor::execute`; `feedLines` is the line-at-a-time execution
-with update + result that the `incr` driver renders (`incr_driver_is_feedLines`), `followPrinted` the loop of
-`FollowFileExecutor::execute` over the engine's answers.
+with update + result that the `incr` driver renders (`incr_driver_is_feedLines`); `runFollowAll` (Model/ExecI.lean,
+driver kind `followi`) is `FollowFileExecutor::execute`, and `follow_run_is_answers` expresses it through `feedLines`.
 
 "Noise" = a readable physical line whose extracted row has no non-NULL column (`isNoise`); `denoise` removes the
 noise lines of a file (a line that is not valid UTF-8 is an error, not noise, and stays). The cleanest form of
@@ -104,10 +105,41 @@ theorem insert_one_noise_line (pre post : List FileLine) (x : FileLine) (hx : is
     denoise (pre ++ x :: post) = denoise (pre ++ post) := by
   simp [denoise, List.filter_append, hx]
 
-/-- **follow mode / line at a time** (update + result for every line): the engine's answers that carry a
-result table — with their `reached_limit` flags — and the final state or failure are those of the run over the
-lines that yield a row; consequently what the follow loop prints is the same -/
-theorem noise_invisible_follow (O : Oracles) (qy : Query) (idx : JoinIndex) (lines : List Line) (es : EngineState)
+/-- **follow mode** — the executed follow loop (`Model/ExecI.lean` `runFollowAll`, `FollowFileExecutor::execute`,
+driver kind `followi`), every statement kind, with or without LIMIT: over the delivered lines and over the
+delivered lines that yield a row it prints the same records and ends the same way (no error, or the same
+error / panic). Only the line counter differs. -/
+theorem noise_invisible_follow (O : Oracles) (qy : Query) (lines : List Line) :
+    SameOut (runFollowAll O qy none (lines.filter (fun l => anyResult l.row))) (runFollowAll O qy none lines) := by
+  obtain ⟨h1, h2⟩ := runFollowAll_noise O qy lines
+  simp only [endStatus, Prod.mk.injEq] at h2
+  exact ⟨h1, h2.1, h2.2.1, h2.2.2⟩
+
+/-- insertion and deletion at any positions of what the follow iterator delivers -/
+theorem noise_invariance_follow (O : Oracles) (qy : Query) (lines lines' : List Line)
+    (h : lines.filter (fun l => anyResult l.row) = lines'.filter (fun l => anyResult l.row)) :
+    SameOut (runFollowAll O qy none lines) (runFollowAll O qy none lines') := by
+  have h1 := noise_invisible_follow O qy lines
+  have h2 := noise_invisible_follow O qy lines'
+  rw [h] at h1
+  exact h1.symm.trans h2
+
+/-- the executed follow loop in terms of the engine's line-at-a-time answers (`feedLines`, any statement kind):
+what it prints is `followPrinted` of the answers, and it ends without error when an answer with a result carried
+the `reached_limit` flag, else the way the feeding ended. (Bridging lemma: statements about `feedLines` /
+`followPrinted` are statements about `runFollowAll`.) -/
+theorem follow_run_is_answers (O : Oracles) (qy : Query) (lines : List Line) :
+    (runFollowAll O qy none lines).printed =
+        (if reachedLimit qy {} then [] else followPrinted (followSingleResult qy) (feedLines O qy [] true lines {}).1) ∧
+    endStatus (runFollowAll O qy none lines) =
+        (if reachedLimit qy {} || hasCut (feedLines O qy [] true lines {}).1 then endStatus {}
+         else endStatus (failWith {} (feedLines O qy [] true lines {}).2)) :=
+  ⟨runFollowAll_printed O qy lines, runFollowAll_status O qy lines⟩
+
+/-- **line at a time, any join index** (what the `incr` driver executes, see `incr_driver_is_feedLines`): the
+engine's answers that carry a result table — with their `reached_limit` flags — and the final state or failure are
+those of the run over the lines that yield a row -/
+theorem noise_invisible_answers (O : Oracles) (qy : Query) (idx : JoinIndex) (lines : List Line) (es : EngineState)
     (single : Bool) :
     withResult (feedLines O qy idx true (lines.filter (fun l => anyResult l.row)) es).1 =
         withResult (feedLines O qy idx true lines es).1 ∧
